@@ -162,6 +162,22 @@ restored {d2}") }),
     // (iii) twin lock-step: a second copy of the original (replayed history) vs the restored device
     let mut a = history_replay();
     let snap = a.snap();
+    // (an application may just as well configure its device first and hand the session in afterwards: the session's
+    // installation leaves the data rate and the ADR switch alone)
+    if let Ok(Ok(s3)) = catch(|| serde_json::from_str::<Session>(&doc)) {
+        let mut t2: NbCore<14, 0> = NbCore::new(&DevCfg::abp(&cfg.region));
+        t2.dev.set_datarate(dr_of(snap.data_rate));
+        t2.dev.set_adr(snap.adr_enabled);
+        t2.dev.set_session(s3);
+        let s2 = t2.snap();
+        if s2.data_rate != snap.data_rate || s2.adr_enabled != snap.adr_enabled || session_of(&s2) != Some(before) {
+            out.push(V {
+                sig: "C20|set_session-disturbs-the-configuration".into(),
+                what: format!("configured data rate {} / ADR {} before set_session; afterwards data rate {} / ADR {}, session {:?}", snap.data_rate, snap.adr_enabled, s2.data_rate, s2.adr_enabled, session_of(&s2)),
+            });
+            return out;
+        }
+    }
     // the async twin takes part in the first probe (a plain uplink) when its ADR flag needs no change (switching ADR
     // off resets the ADR counter by design and the async front-end has no set_session to undo that)
     if let Some(at) = atwin.as_mut() {
